@@ -117,6 +117,7 @@ type HarnessDef struct {
 	Property   string   `json:"property"`
 	Properties []string `json:"properties,omitempty"` // all properties whose oracle labels this harness carries
 	PanicProp  string   `json:"panic_property,omitempty"` // property charged with panics/hangs (default: first)
+	HangProps  []string `json:"hang_properties,omitempty"` // further properties for which a hang of this scenario is a violation
 	Name     string            `json:"name"`
 	Pkg      string            `json:"pkg"`   // relative to /repo
 	Entry    string            `json:"entry"` // function name
@@ -182,6 +183,21 @@ func (h *HarnessDef) labelProp(label string) string {
 		return h.PanicProp
 	}
 	return h.props()[0]
+}
+
+// labelIs says whether a failed oracle label counts for property prop.
+func (h *HarnessDef) labelIs(label, prop string) bool {
+	if h.labelProp(label) == prop {
+		return true
+	}
+	if label == "hang" {
+		for _, p := range h.HangProps {
+			if p == prop {
+				return true
+			}
+		}
+	}
+	return false
 }
 
 func loadIndex() (*Index, error) {
